@@ -969,8 +969,10 @@ enum cc_stat cc_array_iter_remove(CC_ArrayIter *iter, void **out)
 
     if (!iter->last_removed) {
         status = cc_array_remove_at(iter->ar, iter->index - 1, out);
-        if (status == CC_OK)
+        if (status == CC_OK) {
+            iter->index--;
             iter->last_removed = true;
+        }
     }
     return status;
 }
@@ -1092,6 +1094,7 @@ enum cc_stat cc_array_zip_iter_remove(CC_ArrayZipIter *iter, void **out1, void *
     if (!iter->last_removed) {
         cc_array_remove_at(iter->ar1, iter->index - 1, out1);
         cc_array_remove_at(iter->ar2, iter->index - 1, out2);
+        iter->index--;
         iter->last_removed = true;
         return CC_OK;
     }
